@@ -46,6 +46,8 @@ pub struct Cfg {
     /// order of the two independent setters before the iteration: false = set_epoch, set_fast_forward; true = the
     /// other way round
     pub ff_first: bool,
+    /// the loader is created without a seed (legal when shuffle is off; it then behaves as with seed 0)
+    pub seed_none: bool,
 }
 
 fn is_bad(bad: u64, k: u64, i: u64) -> bool {
@@ -190,7 +192,7 @@ pub fn run_loader_with(c: &Cfg, order: &[(u64, u64)], reused: bool) -> Result<Ru
         c.shuffle,
         c.prefetch as usize,
         c.sort,
-        Some(c.seed),
+        if c.seed_none && c.seed == 0 && !c.shuffle { None } else { Some(c.seed) },
         c.skip as usize,
         c.limit.map(|x| x as usize),
         Some((c.rank as usize, c.world as usize)),
@@ -244,10 +246,10 @@ fn rd_cfg(r: &mut Rd) -> R<Cfg> {
     let rank = r.nat()?;
     let world = r.nat()?;
     let rest = r.nats()?;
-    if rest.len() < 13 {
+    if rest.len() < 14 {
         return Err("short config".into());
     }
-    let lens = rest[13..].to_vec();
+    let lens = rest[14..].to_vec();
     if lens.iter().sum::<u64>() != n {
         return Err("N is not the total number of lines".into());
     }
@@ -271,6 +273,7 @@ fn rd_cfg(r: &mut Rd) -> R<Cfg> {
         rank,
         world,
         ff_first: rest[12] == 1,
+        seed_none: rest[13] == 1,
     })
 }
 
@@ -281,7 +284,7 @@ fn enc_cfg(c: &Cfg) -> Vec<u64> {
         None => v.push(0),
     }
     v.extend([c.ff, c.rank, c.world]);
-    let mut rest = vec![c.strategy, c.seed, c.epoch, c.threads, c.buffer, c.sort as u64, c.shuffle as u64, c.prefetch, c.batch_limit, c.padded as u64, c.prep, c.bad, c.ff_first as u64];
+    let mut rest = vec![c.strategy, c.seed, c.epoch, c.threads, c.buffer, c.sort as u64, c.shuffle as u64, c.prefetch, c.batch_limit, c.padded as u64, c.prep, c.bad, c.ff_first as u64, c.seed_none as u64];
     rest.extend(c.lens.iter().copied());
     enc_nats(&mut v, rest);
     v
@@ -417,6 +420,7 @@ fn rand_cfg(ctx: &mut Ctx) -> Cfg {
         rank: ctx.rng.random_range(0..world),
         world,
         ff_first: ctx.rng.random_bool(0.5),
+        seed_none: false,
         // a third of the configurations have lines that do not parse (incl. first lines, split points)
         bad: [0u64, 0, 0, 0, 2, 3, 5][ctx.rng.random_range(0..7)],
         lens,
@@ -430,6 +434,17 @@ pub fn run_c08(ctx: &mut Ctx) {
         let mut c = rand_cfg(ctx);
         // values at the top of the integer range: a seed near u64::MAX (seed + epoch, seed + item index), "skip /
         // fast-forward everything", an explicit "no limit"
+        if i % 5 == 1 {
+            // a loader without a seed (shuffle off): it must behave exactly like seed 0
+            c.seed_none = true;
+            c.seed = 0;
+            c.shuffle = false;
+            if i % 10 == 1 {
+                c.strategy = 2;
+            }
+        } else {
+            c.seed_none = false;
+        }
         match i % 10 {
             3 => c.seed = u64::MAX - ctx.rng.random_range(0..3u64),
             5 => c.skip = u64::MAX - ctx.rng.random_range(0..2u64),
